@@ -24,6 +24,7 @@ from mapproxy.util.geom import (
     load_polygon_lines,
     transform_geometry,
     bbox_polygon,
+    flatten_to_polygons,
     EmptyGeometryError,
 )
 from mapproxy.srs import SRS
@@ -65,21 +66,30 @@ def load_limited_to(limited_to):
     return GeomCoverage(geom, srs, clip=True)
 
 
-def load_limited_to_all(*limited_tos):
+def load_limited_to_all(*limited_tos, **kw):
     """
     Load the coverage for the intersection of all given ``limited_to``
     dictionaries. Missing (``None``/empty) entries are ignored.
     Returns ``None`` if there is nothing to limit to.
+
+    The intersection is built in ``srs`` (keyword argument, defaults to the
+    SRS of the first entry). Pass the SRS the coverage is used in, so that
+    each geometry is transformed only once.
     """
     coverages = [load_limited_to(lt) for lt in limited_tos if lt]
     if not coverages:
         return None
     if len(coverages) == 1:
         return coverages[0]
-    srs = coverages[0].srs
-    geom = coverages[0].geom
-    for c in coverages[1:]:
-        geom = geom.intersection(c.transform_to(srs).geom)
+    srs = kw.get('srs') or coverages[0].srs
+    geom = reduce(lambda a, b: a.intersection(b),
+                  [c.transform_to(srs).geom for c in coverages])
+    # borders that only touch leave lines and points in the intersection
+    polygons = flatten_to_polygons(geom)
+    if len(polygons) == 1:
+        geom = polygons[0]
+    else:
+        geom = shapely.geometry.MultiPolygon(polygons)
     return GeomCoverage(geom, srs, clip=True)
 
 
